@@ -74,10 +74,11 @@ class P(vlib.Prop):
             "consumer when Receiver.Shutdown starts and exports after it returned (kind 10), slow consumers against the "
             "receiver's read/write timeouts (kind 11), bodies whose read ends early although the received prefix decodes "
             "(missing compression trailer, short of Content-Length), "
-            "0-item payloads, authenticator accepts/refuses, then random hops; raw HTTP requests over every "
+            "rare configurations (custom URL paths, endpoint overrides, trailing-slash and scheme-prefixed endpoints), histories of 3-8 "
+            "sends against one receiver (kind 12), 0-item payloads, authenticator accepts/refuses, then random hops; raw HTTP requests over every "
             "(auth, content-encoding class, method, content-type class, body class) combination + random; raw gRPC frames "
             "(malformed bodies, refused credentials, every outcome).  Every case runs the implementation and is compared "
-            "with the Coq model (vm_compute); non-trivial = every case; distinct = distinct case terms.")
+            "with the Coq model AND checked by the decidable clause checker PropCheck.prop_ok (vm_compute, one pass); non-trivial = every case; distinct = distinct case terms.")
     trusted_base = [
         "Coq 8.16.1 kernel + vm_compute (coqc); no axioms (Print Assumptions: closed under the global context)",
         "translator T1 (tools/go2coq): GetHTTPStatusCodeFromStatus, shouldRetry, isRetryableStatusCode and the grpc codes constants are re-read from the current source on every run",
